@@ -517,6 +517,9 @@ def callee_defaults(E, c):
 
 def apply_contract(E, c, recv, args, kw, st, n):
     """assert requires; havoc modifies; assume ensures (normal edge) / raises[T] (one edge per declared T)."""
+    # the current contract may name another (trusted, more abstract) view of a callee for its own call sites
+    if E.cur_contract is not None and c.qual in getattr(E.cur_contract, "views", {}):
+        c = E.reg.contracts[E.cur_contract.views[c.qual]]
     params = bind_params(E, c, recv, args, kw, n, st)
     def matches(cc, pr):
         return all(pr[nm].py is not None and pr[nm].py == val for nm, val in cc.static.items())
